@@ -93,7 +93,8 @@ def _pick_distinct(rng, pool, n, avoid=()):
     return cand[:n]
 
 
-def gen_struct(rng, name, qual):
+def gen_struct(rng, name, qual, must=()):
+    """must: field names that have to be present (they come first and carry no alias tag unless listed as 'name=alias')"""
     nf = rng.randint(1, 5)
     names = []
     for n in _pick_distinct(rng, list(dict.fromkeys(rng.sample(STRUCT_FIELD_NAMES, len(STRUCT_FIELD_NAMES)))), len(set(STRUCT_FIELD_NAMES))):
@@ -130,6 +131,13 @@ def gen_struct(rng, name, qual):
     return {"name": name, "fields": fields, "qual": qual}
 
 
+def helpers(pkg):
+    """the helper packages of a package (qualified struct / scalar types): pkg['qpkgs'], or the single pkg['qpkg']"""
+    if pkg.get("qpkgs"):
+        return pkg["qpkgs"]
+    return [pkg["qpkg"]] if pkg.get("qpkg") else []
+
+
 def pick_scalar_type(rng, pkg, verb):
     """a scalar type of the package, or (GET/DELETE only: on body verbs the generator binds it as the body) a
     named scalar of the helper package"""
@@ -142,7 +150,7 @@ def scalar_base(gotype):
     return QSCALARS.get(gotype, gotype)
 
 
-def gen_method(rng, name, pkg, force_verb=None):
+def gen_method(rng, name, pkg, force_verb=None, force_struct=None):
     verb = force_verb or rng.choice(VERBS)
     nholes = rng.choice([0, 0, 1, 1, 1, 2, 2, 3])
     hole_names = _pick_distinct(rng, HOLE_NAMES, nholes)
@@ -188,9 +196,13 @@ def gen_method(rng, name, pkg, force_verb=None):
                 used_alias.add(a)
                 alias.append((pn, a))
     # struct
-    structs = pkg["structs"] + (pkg["qpkg"]["structs"] if pkg["qpkg"] else [])
+    structs = pkg["structs"] + [st for q in helpers(pkg) for st in q["structs"]]
     want_struct = verb in BODY_VERBS or rng.random() < 0.5
-    if want_struct and structs:
+    if force_struct is not None:
+        st, sptr = force_struct
+        params.append({"name": rng.choice(["req", "in", "body", "opts"]), "kind": "struct", "ptr": sptr,
+                       "struct": st["name"], "qual": st["qual"]})
+    elif want_struct and structs:
         st = rng.choice(structs)
         params.append({"name": rng.choice(["req", "in", "body", "opts"]), "kind": "struct", "ptr": rng.random() < 0.45,
                        "struct": st["name"], "qual": st["qual"]})
